@@ -28,6 +28,10 @@ pub trait Scenario {
     fn arc_points(&self) -> bool {
         false
     }
+    /// Should there be a scheduling point right after every unlock, send, store and read-modify-write?
+    fn post_points(&self) -> bool {
+        false
+    }
 }
 
 #[derive(Clone, Copy)]
@@ -70,6 +74,7 @@ fn run(scn: &dyn Scenario, prefix: Vec<usize>, sigs: Vec<u64>, keep_trace: bool)
             keep_trace,
             delay: DELAY.with(|d| d.get()),
             arc_points: scn.arc_points(),
+            post_points: scn.post_points(),
         },
         body,
         judge,
